@@ -150,21 +150,23 @@ Fixpoint ok (mc:machine) {struct mc} : rnode -> Prop :=
 Definition ok_subs (mc:machine) : list (option (rnode -> Prop)) :=
   map (fun st => match s_sub st with Some c => Some (ok c) | None => None end) (m_states mc).
 (* the same without the requirement on this level's own marker (it is set while the level dispatches) *)
-Definition okL (mc:machine) (rn:rnode) : Prop :=
-  msgq rn = [] /\ defq rn = [] /\ Forall2 slot_okP (ok_subs mc) (kids rn).
+(* q: what the level's own message queue holds (events enqueued from outside wait there; everything below is idle) *)
+Definition okLq (q:list qitem) (mc:machine) (rn:rnode) : Prop :=
+  msgq rn = q /\ defq rn = [] /\ Forall2 slot_okP (ok_subs mc) (kids rn).
+Definition okL (mc:machine) (rn:rnode) : Prop := okLq [] mc rn.
 
 Lemma ok_unfold mc rn : ok mc rn <-> okL mc rn /\ processing rn = false.
-Proof. destruct mc; unfold okL, ok_subs; cbn [ok m_states]. tauto. Qed.
+Proof. destruct mc; unfold okL, okLq, ok_subs; cbn [ok m_states]. tauto. Qed.
 
 Lemma ok_init : forall mc, ok mc (init_rnode mc).
 Proof.
   fix IH 1. intros mc. apply ok_unfold. destruct mc as [states inits rows irows hist].
-  unfold okL, ok_subs. cbn [m_states init_rnode kids msgq defq processing]. repeat split.
+  unfold okL, okLq, ok_subs. cbn [m_states init_rnode kids msgq defq processing]. repeat split.
   induction states as [|st t IHt]; cbn [map]; constructor; auto.
   destruct st as [k sub si df fl z]. cbn. destruct sub as [c|]; cbn; auto.
 Qed.
 
-Lemma okL_kid mc rn s c : okL mc rn -> s_sub (get_state mc s) = Some c -> exists kn, nth s (kids rn) None = Some kn /\ ok c kn.
+Lemma okL_kid {q} mc rn s c : okLq q mc rn -> s_sub (get_state mc s) = Some c -> exists kn, nth s (kids rn) None = Some kn /\ ok c kn.
 Proof.
   intros (_ & _ & H) Hs. unfold ok_subs, get_state in *.
   revert s Hs. generalize dependent (kids rn). generalize (m_states mc) as states.
@@ -174,7 +176,7 @@ Proof.
     + rewrite Hs in Hok. destruct k as [kn|]; cbn in Hok; [|contradiction]. eauto.
     + eapply IH; eauto.
 Qed.
-Lemma okL_nokid mc rn s : okL mc rn -> s_sub (get_state mc s) = None -> nth s (kids rn) None = None.
+Lemma okL_nokid {q} mc rn s : okLq q mc rn -> s_sub (get_state mc s) = None -> nth s (kids rn) None = None.
 Proof.
   intros (_ & _ & H) Hs. unfold ok_subs, get_state in *.
   revert s Hs. generalize dependent (kids rn). generalize (m_states mc) as states.
@@ -192,10 +194,10 @@ Proof.
   - inversion Hn; subst. constructor; auto.
   - constructor; auto.
 Qed.
-Lemma okL_set_kid mc rn s c kn : okL mc rn -> s_sub (get_state mc s) = Some c -> s < length (m_states mc) -> ok c kn ->
-  okL mc (set_kids rn (upd (kids rn) s (Some kn))).
+Lemma okL_set_kid {q} mc rn s c kn : okLq q mc rn -> s_sub (get_state mc s) = Some c -> s < length (m_states mc) -> ok c kn ->
+  okLq q mc (set_kids rn (upd (kids rn) s (Some kn))).
 Proof.
-  intros (A & B & H) Hs Hlt Hk. unfold okL. destruct rn as [a ks h q d cs p r]. cbn in *. repeat split; auto.
+  intros (A & B & H) Hs Hlt Hk. unfold okLq. destruct rn as [a ks h q0 d cs p r]. cbn in *. repeat split; auto.
   eapply Forall2P_upd; eauto. unfold ok_subs. rewrite nth_error_map.
   unfold get_state in Hs. rewrite (nth_error_nth' _ dummy_state Hlt). cbn. rewrite Hs. reflexivity.
 Qed.
@@ -205,15 +207,17 @@ Proof.
   rewrite nth_overflow in H by exact G. discriminate.
 Qed.
 
-Lemma okL_set_act mc rn a : okL mc rn -> okL mc (set_act rn a). Proof. destruct rn; exact (fun H => H). Qed.
-Lemma okL_set_hist mc rn a : okL mc rn -> okL mc (set_hist rn a). Proof. destruct rn; exact (fun H => H). Qed.
-Lemma okL_set_processing mc rn a : okL mc rn -> okL mc (set_processing rn a). Proof. destruct rn; exact (fun H => H). Qed.
-Lemma okL_set_curseq mc rn a : okL mc rn -> okL mc (set_curseq rn a). Proof. destruct rn; exact (fun H => H). Qed.
-Lemma okL_set_running mc rn a : okL mc rn -> okL mc (set_running rn a). Proof. destruct rn; exact (fun H => H). Qed.
-Lemma okL_set_defq_nil mc rn : okL mc rn -> okL mc (set_defq rn []).
-Proof. destruct rn. unfold okL. cbn. tauto. Qed.
-Lemma okL_set_msgq_nil mc rn : okL mc rn -> okL mc (set_msgq rn []).
-Proof. destruct rn. unfold okL. cbn. tauto. Qed.
+Lemma okL_set_act {q} mc rn a : okLq q mc rn -> okLq q mc (set_act rn a). Proof. destruct rn; exact (fun H => H). Qed.
+Lemma okL_set_hist {q} mc rn a : okLq q mc rn -> okLq q mc (set_hist rn a). Proof. destruct rn; exact (fun H => H). Qed.
+Lemma okL_set_processing {q} mc rn a : okLq q mc rn -> okLq q mc (set_processing rn a). Proof. destruct rn; exact (fun H => H). Qed.
+Lemma okL_set_curseq {q} mc rn a : okLq q mc rn -> okLq q mc (set_curseq rn a). Proof. destruct rn; exact (fun H => H). Qed.
+Lemma okL_set_running {q} mc rn a : okLq q mc rn -> okLq q mc (set_running rn a). Proof. destruct rn; exact (fun H => H). Qed.
+Lemma okL_set_defq_nil {q} mc rn : okLq q mc rn -> okLq q mc (set_defq rn []).
+Proof. destruct rn. unfold okLq. cbn. tauto. Qed.
+Lemma okL_set_msgq_nil {q} mc rn : okLq q mc rn -> okLq [] mc (set_msgq rn []).
+Proof. destruct rn. unfold okLq. cbn. tauto. Qed.
+Lemma okL_set_msgq {q} mc rn q' : okLq q mc rn -> okLq q' mc (set_msgq rn q').
+Proof. destruct rn. unfold okLq. cbn. tauto. Qed.
 
 (* nesting depth below a machine: what the fuel of the event loops has to exceed *)
 Fixpoint depth (mc:machine) {struct mc} : nat :=
